@@ -27,7 +27,7 @@ fn main() {
         }
         let id = t.next().unwrap().to_string();
         let k: usize = t.next().unwrap().parse().unwrap();
-        let partial = t.next().unwrap() == "partial";
+        let partial = interp::fallback_token(t.next().unwrap());
         assert_eq!(t.next(), Some("E"));
         let n: usize = t.next().unwrap().parse().unwrap();
         let events: Vec<interp::Event> = (0..n).map(|_| interp::parse_event(t.next().unwrap())).collect();
